@@ -920,6 +920,8 @@ class FDE:
                 name = target.name
                 q = target.fi.qualname if target.fi is not None else name
                 if name not in self.stubs and q not in self.stubs:
+                    if target.fi.is_static:
+                        return self._invoke(target.fi, args, kwargs)      # self.helper(...) on a @staticmethod: no receiver
                     return self._invoke(target.fi, [target.recv] + args, kwargs)
                 self.effects.append(('call', name, target.recv, tuple(args), tuple(sorted(kwargs.items(), key=lambda kv: kv[0]))))
                 if self.stub is not None:
